@@ -52,7 +52,7 @@ CATALOGUE = {
         "T.extradata-other-hash", "T.name-digest-wrong", "T.name-digest-other-alg", "T.name-prefix-ne-namealg",
         "T.sig-other-key", "T.sig-other-certinfo", "T.cert-v1", "T.subject-nonempty", "T.san-missing",
         "T.san-no-manufacturer", "T.san-no-model", "T.san-no-version", "T.vendor-unknown", "T.eku-missing",
-        "T.eku-other-first", "T.bc-missing", "T.bc-ca-true", "T.exponent-zero-key-e-ne-default",
+        "T.eku-without-aik", "T.bc-missing", "T.bc-ca-true", "T.exponent-zero-key-e-ne-default",
         "T.cose-exponent-above-uint32", "T.san-uri-only", "T.certinfo-size-prefixed", "T.namealg-unmapped-sm3", "T.namealg-unmapped-null", "T.curve-unmapped-p224", "T.curve-unmapped-none", "T.curve-unmapped-bn638", "T.curve-unmapped-p192"],
     "apple": ["AP.x5c-missing", "AP.nonce-ext-missing", "AP.nonce-other-authdata", "AP.nonce-other-cdj",
               "AP.certkey-ne-credkey"],
@@ -124,6 +124,7 @@ class RegRequest:
     envelope_id: Optional[bytes] = None                 # rawId (and id) of the PublicKeyCredential envelope when they are to
                                                         # differ from the attested credential id (nothing compares the two)
     stale_same_name_anchor: Optional[str] = None       # "first" / "last": the RP's anchor list also holds the CA's previous root (same name, other key); certificates carry key identifiers
+    tpm_eku_extra: Optional[str] = None                # "first" / "last": a conformant variation, another purpose next to tcg-kp-AIKCertificate
     tpm_san_extra_dnsname_first: bool = False          # a conformant variation: an additional dNSName before the directoryName
     cd_kwargs: dict = field(default_factory=dict)
 
@@ -642,8 +643,12 @@ def _tpm_san(b: _Build) -> x509.SubjectAlternativeName:
 def _tpm_aik_profile(b: _Build) -> dict:
     """build_chain keyword arguments for an AIK certificate per WebAuthn §8.3.1, modulo the T.* certificate faults."""
     eku = [TCG_KP_AIK_CERTIFICATE]
-    if b.has("T.eku-other-first"):
-        eku.insert(0, ExtendedKeyUsageOID.SERVER_AUTH)
+    if b.has("T.eku-without-aik"):
+        eku = [ExtendedKeyUsageOID.SERVER_AUTH, ExtendedKeyUsageOID.CLIENT_AUTH]
+    elif b.req.tpm_eku_extra == "first":          # conformant: the extension "MUST contain" the AIK purpose
+        eku.insert(0, ExtendedKeyUsageOID.CLIENT_AUTH)
+    elif b.req.tpm_eku_extra == "last":
+        eku.append(ExtendedKeyUsageOID.CLIENT_AUTH)
     extensions = []
     if not b.has("T.san-missing"):
         extensions.append((_tpm_san(b), True))
